@@ -279,10 +279,10 @@ func datagram(r *rng.R, class string, serial, card uint32) []byte {
 }
 
 type clientCfg struct {
-	path   string // broadcast | udp | tcp
-	bind   int    // 0 or a fixed port
-	bindIP string // "" = 127.0.0.1
-	debug  bool   // the client's debug flag (logging only: nothing observable may depend on it)
+	path    string        // broadcast | udp | tcp
+	bind    int           // 0 or a fixed port
+	bindIP  string        // "" = 127.0.0.1
+	debug   bool          // the client's debug flag (logging only: nothing observable may depend on it)
 	timeout time.Duration // the client's timeout (T everywhere but in the zero-timeout cases)
 }
 
